@@ -53,3 +53,63 @@ Theorem C13_variants_each_mutation_once : forall (mk : variant -> akey) (lists :
   keys_distinct pkey (map pj (fold_left (fun cs l => fold_left (fun cs v => count_key (mk v) cs) l cs) lists [])).
 Proof. exact variants_aggregate_once. Qed.
 Print Assumptions C13_variants_each_mutation_once.
+
+(* ---- the whole table, declaratively ---- *)
+(* snps: before the threshold the table is sorted, lists each SNP once, and contains exactly the pairs
+   (SNP, number of sequences whose per-sequence list contains it) with that number >= 1 *)
+Theorem C13_snps_table : forall lists : list (list snp), Forall (@NoDup snp) lists ->
+  let S := ssort (snp * nat) snp_lt (fold_left (fun cs l => fold_left (fun cs s => count_snp s cs) l cs) lists []) in
+  sorted (snp * nat) snp_lt S /\ NoDup (map fst S) /\
+  forall k c, In (k, c) S <-> (0 < c)%nat /\ c = length (filter (fun l => existsb (snp_eqb k) l) lists).
+Proof. exact snps_agg_table. Qed.
+Print Assumptions C13_snps_table.
+
+(* (the lists the command counts are duplicate-free, so the theorem applies to every run) *)
+Theorem C13_snps_command_lists_nodup : forall refseq recs ls, snps_lists refseq recs = Ok ls -> Forall (@NoDup snp) ls.
+Proof. exact snps_lists_nodup. Qed.
+Print Assumptions C13_snps_command_lists_nodup.
+
+(* the printed rows are the table rows whose frequency count/n (float64) is not below the threshold, in table order,
+   each printed as SNP,frequency to 9 decimals *)
+Theorem C13_snps_rows_spec : forall thr lists,
+  let n := length lists in
+  let freq (kn : snp * nat) := f64_div_Z (Z.of_nat (snd kn)) (Z.of_nat n) in
+  snps_agg_rows thr lists =
+  concat (map (fun kn => snp_bytes (fst kn) ++ [44%N] ++ fmt_f9 (freq kn) ++ [NL])
+              (filter (fun kn => negb (f64_ltb (freq kn) thr))
+                      (ssort (snp * nat) snp_lt (fold_left (fun cs l => fold_left (fun cs s => count_snp s cs) l cs) lists [])))).
+Proof. exact snps_agg_rows_spec. Qed.
+Print Assumptions C13_snps_rows_spec.
+
+(* variants / sam variants: the same table on the aggregator's key *)
+Theorem C13_variants_table : forall (mk : variant -> akey) (lists : list (list variant)),
+  Forall (@NoDup pkey) (map (map (fun v => akey_proj (mk v))) lists) -> forall k c,
+  In (k, c) (map pj (fold_left (fun cs l => fold_left (fun cs v => count_key (mk v) cs) l cs) lists [])) <->
+  (0 < c)%nat /\ c = length (filter (fun l => existsb (pkey_eqb k) l) (map (map (fun v => akey_proj (mk v))) lists)).
+Proof. exact variants_aggregate_table. Qed.
+Print Assumptions C13_variants_table.
+
+(* ordered by the aggregator's key, whose first component is the genomic position: positions never decrease down the list *)
+Theorem C13_variants_sorted : forall counts : list (akey * nat),
+  sorted (akey * nat) (fun a b => akey_lt (fst a) (fst b)) (ssort (akey * nat) (fun a b => akey_lt (fst a) (fst b)) counts).
+Proof. exact variants_agg_sorted. Qed.
+Print Assumptions C13_variants_sorted.
+Theorem C13_variants_positions_ascending : forall counts : list (akey * nat),
+  Sorted.StronglySorted (fun a b => (v_pos (k_v (fst a)) <= v_pos (k_v (fst b)))%Z)
+                        (ssort (akey * nat) (fun a b => akey_lt (fst a) (fst b)) counts).
+Proof. exact variants_agg_positions_ascending. Qed.
+Print Assumptions C13_variants_positions_ascending.
+
+Theorem C13_variants_rows_spec : forall append_snp s e thr refid recs,
+  let qs := filter (fun nv => negb (list_eqb (fst nv) refid)) recs in
+  let n := length qs in
+  let freq (kn : akey * nat) := f64_div_Z (Z.of_nat (snd kn)) (Z.of_nat n) in
+  let counts := fold_left (fun cs nv =>
+                  fold_left (fun cs v => count_key {| k_v := v; k_rep := format_variant append_snp v |} cs)
+                            (filter (in_window s e) (snd nv)) cs) qs [] in
+  aggregate_rows append_snp s e thr refid recs =
+  concat (map (fun kn => k_rep (fst kn) ++ [44%N] ++ fmt_f9 (freq kn) ++ [NL])
+              (filter (fun kn => negb (f64_ltb (freq kn) thr))
+                      (ssort (akey * nat) (fun a b => akey_lt (fst a) (fst b)) counts))).
+Proof. exact aggregate_rows_spec. Qed.
+Print Assumptions C13_variants_rows_spec.
